@@ -177,8 +177,9 @@ def main(argv=None):
     if inconcl:
         print(f"INCONCLUSIVE (not counted as discharged): {inconcl[:8]}{'...' if len(inconcl) > 8 else ''}")
     if errors:
-        for e in errors[:10]:
-            print("HARNESS-ERROR", json.dumps(e, default=str)[:1500])
+        for e in errors[:4]:
+            print("HARNESS-ERROR", json.dumps(e, default=str)[:900])
+        print(f"({len(errors)} harness errors)")
         return 2
     if violations:
         for v in violations[:int(os.environ.get("VERIF_ALLV") or 5)]:
